@@ -51,8 +51,8 @@ CLAIMED = {
    note="Unbounded integer/fraction values; parsed scale 0..scale+2; integer literal text <= 3 (4) bytes (big.Int.SetString by its documented grammar). The lexer itself (see C37) and string/character escapes are outside. Type ranges in the checker come from the real sema type objects (snapshot of the real build).",
    design="3 C40"),
  "C47": dict(
-   text="revertibleRandom for the 8 native unsigned types and UInt128 (quick; Word128 and 3 draws in thorough) with a fully symbolic modulus and a generator stub returning arbitrary bytes: result < modulus, each candidate is exactly the fresh bytes reduced mod 2^bitlen(m-1), the minimal number of bytes is drawn, a candidate is accepted iff <= m-1, zero modulus fails, and without modulus all bits of the type come from one draw.",
-   note="At most 2 (thorough 3) draws per call are explored; later iterations start from the same kind of state. Exact uniformity follows on paper from the checked facts (stated in evidence). UInt256/Word256 (bit-vector queries of width 288 over 3 draws did not finish in 2 h on this machine) and termination with probability 1 are outside.",
+   text="revertibleRandom for the 8 native unsigned types and UInt128 (quick; plus Word128 in thorough) with a fully symbolic modulus and a generator stub returning arbitrary bytes: result < modulus, each candidate is exactly the fresh bytes reduced mod 2^bitlen(m-1), the minimal number of bytes is drawn, a candidate is accepted iff <= m-1, zero modulus fails, and without modulus all bits of the type come from one draw.",
+   note="At most 2 draws per call are explored; later iterations start from the same kind of state. Exact uniformity follows on paper from the checked facts (stated in evidence). UInt256/Word256 (bit-vector queries of width 288 did not finish in 2 h on this machine) and termination with probability 1 are outside.",
    design="3 C47"),
  "C11": dict(
    text="For each of the 14 sized integer types plus Int/UInt and each of + - * / % and unary minus, the real interpreter method is executed symbolically (machine ints as mathematical integers with Go's wrap/truncation spelled out; big.Int by an exact model) and an SMT solver shows, for every operand pair of the full width, that the result equals the exact integer result or the failure is the right overflow/underflow/division-by-zero error.",
